@@ -2071,7 +2071,13 @@ impl VtCtx {
             }
             None => true,
         };
-        self.add_event_named(None, event_name.clone(), vec![], &[]);
+        // every entry point for local events has to agree on where "here" is: alternate between
+        // `LocalSpan::add_event` and the deprecated `Event::add_to_local_parent`
+        if event_name.as_bytes()[event_name.len() - 1] % 2 == 1 {
+            self.add_event_deprecated(None, event_name.clone(), vec![], &[]);
+        } else {
+            self.add_event_named(None, event_name.clone(), vec![], &[]);
+        }
         self.add_props_with(None, vec![(prop_key.clone(), "v".to_string())], &[]);
         let mut w = self.w();
         let t = w.tick();
